@@ -1,0 +1,47 @@
+// Add-only test shim (build tag verif): read-only access to the package-level
+// tables of this package for an external verification harness.
+
+//go:build verif
+// +build verif
+
+package flate
+
+// VerifRanges returns lenRanges and distRanges as (base, bits) pairs.
+func VerifRanges() (lens, dists [][2]uint32) {
+	for _, r := range lenRanges {
+		lens = append(lens, [2]uint32{r.Base, r.Len})
+	}
+	for _, r := range distRanges {
+		dists = append(dists, [2]uint32{r.Base, r.Len})
+	}
+	return
+}
+
+// VerifClenLens returns the code length code order.
+func VerifClenLens() []uint { return append([]uint{}, clenLens[:]...) }
+
+// VerifConsts returns maxHistSize, initSize, growFactor, endBlockSym,
+// maxNumLitSyms, maxNumDistSyms, maxNumCLenSyms, maxPrefixBits.
+func VerifConsts() []int {
+	return []int{maxHistSize, initSize, growFactor, endBlockSym, maxNumLitSyms, maxNumDistSyms, maxNumCLenSyms, maxPrefixBits}
+}
+
+// VerifShared returns a dump of every package-level table (shared by all
+// Readers): the fixed Huffman decoders and encoders and the range tables.
+func VerifShared() []uint32 {
+	var out []uint32
+	out = append(out, decLit.VerifDump()...)
+	out = append(out, decDist.VerifDump()...)
+	out = append(out, encLit.VerifDump()...)
+	out = append(out, encDist.VerifDump()...)
+	for _, r := range lenRanges {
+		out = append(out, r.Base, r.Len)
+	}
+	for _, r := range distRanges {
+		out = append(out, r.Base, r.Len)
+	}
+	for _, c := range clenLens {
+		out = append(out, uint32(c))
+	}
+	return out
+}
